@@ -39,7 +39,9 @@ Record cfg := mkcfg {
   g_ver : Z                       (* bit 0: CalcKrigingFactors::_rollback gives the Z and X locators back (fixes/C19_6.patch)
                                      bit 1: _expandInformation(+1) registers what it creates as temporary variables of dbin and
                                             CalcSimuTurningBands::_postprocess no longer calls _expandInformation(-1) (C19_7)
-                                     bit 2: simulations save / give back the pre-existing SIMU locators (C19_8) *)
+                                     bit 2: simulations save / give back the pre-existing SIMU locators (C19_8)
+                                     bit 3: tessellation_poisson designates its nested simulation by UID, gives it no locator
+                                            and deletes it on every path (C19_9) *)
 }.
 Definition ver_bit (c : cfg) (k : Z) : bool := Z.testbit (g_ver c) k.
 
@@ -70,6 +72,14 @@ Definition pre_interp (c : cfg) : list op :=
    CalcSimuTurningBands, CalcGridToGrid); CalcKriging and CalcSimuTurningBands then give the coordinate locators back (DGM) *)
 Definition rollback_std (c : cfg) (restore_x : bool) : list op :=
   [OClean 1] ++ (if g_rb2 c then [OClean 2] else []) ++ (if restore_x then [ORestoreX] else []).
+
+(* simulators: variables created with the SIMU locator; with fixes/C19_8.patch (g_ver bit 2) the variables that already
+   carry it are put aside by _addVariableDb and given back by _restoreLocators() at the end of _postprocess / _rollback *)
+Definition simu_add (c : cfg) (w : which) (status : Z) (n : st -> Z) (slot : nat) : list op :=
+  (if ver_bit c 2 then [OSaveLoc w L_SIMU] else []) ++ [OAdd w status L_SIMU n (Cst 0) slot].
+Definition simu_restore (c : cfg) : list op := if ver_bit c 2 then [ORestoreLocs] else [].
+Definition rollback_simu (c : cfg) (restore_x : bool) : list op :=
+  [OClean 1] ++ (if g_rb2 c then [OClean 2] else []) ++ simu_restore c ++ (if restore_x then [ORestoreX] else []).
 
 (* ---------------------------------------------------------------- CalcKriging (CalcKriging.cpp)
    slots: 0 _iptrEst, 1 _iptrStd, 2 _iptrVarZ, 3 _iptrNeigh *)
@@ -171,24 +181,24 @@ Definition simtub (c : cfg) (gout : bool) : calc :=
   let n := K (g_mnvar c * g_nbsimu c) in
   mkcalc (g_nc c) [] (simtub_check c gout)
     (pre_interp c ++
-     (if g_has_in c then [OAdd WIn 2 L_SIMU n (Cst 0) 4%nat] else []) ++
-     [OAdd WOut 1 L_SIMU n (Cst 0) 0%nat] ++
+     (if g_has_in c then simu_add c WIn 2 n 4%nat else []) ++
+     simu_add c WOut 1 n 0%nat ++
      (if g_dgm c && gout then [OCenter] else []))
     [OBody 3]
     ([OClean 2] ++ (if ver_bit c 1 then [] else [OExpand (-1) L_F false; OExpand (-1) L_NOSTAT false]) ++
      [ORename WOut no_names L_Z (K (g_mnvar c)) 0%nat 0 [] (K (g_nbsimu c)) true] ++
-     (if g_dgm c then [ORestoreX] else []))
-    (rollback_std c (g_dgm c)).
+     (if g_dgm c then [ORestoreX] else []) ++ simu_restore c)
+    (rollback_simu c (g_dgm c)).
 
 (* ---------------------------------------------------------------- CalcSimuFFT (CalcSimuFFT.cpp:1048-1104) *)
 Definition simfft_check (c : cfg) (gout : bool) (s : st) : bool :=
   check_interp c s && (0 <? g_nbsimu c) && gout && (g_mnvar c =? 1) && g_extra_ok c.
 Definition simfft (c : cfg) (gout : bool) : calc :=
   mkcalc (g_nc c) [] (simfft_check c gout)
-    (pre_interp c ++ [OAdd WOut 1 L_SIMU (K (g_nbsimu c)) (Cst 0) 0%nat])
+    (pre_interp c ++ simu_add c WOut 1 (K (g_nbsimu c)) 0%nat)
     [OBody 3]
-    [OClean 2; ORename WOut no_names L_Z (K 1) 0%nat 0 [] (K (g_nbsimu c)) true]
-    (rollback_std c false).
+    ([OClean 2; ORename WOut no_names L_Z (K 1) 0%nat 0 [] (K (g_nbsimu c)) true] ++ simu_restore c)
+    (rollback_simu c false).
 
 (* ---------------------------------------------------------------- CalcSimpleInterpolation (CalcSimpleInterpolation.cpp:44-105)
    slots 0 _iattEst, 1 _iattStd *)
@@ -282,12 +292,25 @@ Definition simupost (c : cfg) (gout : bool) (quals : list str) : calc :=
 (* ---------------------------------------------------------------- CalcSimuPartition (CalcSimuPartition.cpp:236-300) and
    CalcSimuSubstitution (CalcSimuSubstitution.cpp:330-383): no dbin, one variable with the SIMU locator *)
 Definition simu1_check (c : cfg) (gout : bool) (s : st) : bool := check_interp c s && (0 <? g_nbsimu c) && gout && g_extra_ok c.
+(* g_mode 1: tessellation_poisson.  CalcSimuPartition::_poisson (CalcSimuPartition.cpp:121-223) runs a nested
+   simtub(NULL, dbgrid, model, NULL, 1, ...) with the default convention "Simu": one more variable in the grid, created by
+   the nested calculator (not registered here) with the SIMU locator, then named and given the Z locator; it may then
+   return false (no Poisson plane) and it finally deletes the variable whose UID is the LAST COLUMN RANK (slot 5) *)
+Definition s_Simu : str := [83; 105; 109; 117].
+Definition nc_simu : namconv := mknc s_Simu true true true L_Z s_dot true.
+Definition nc_simu_noloc : namconv := mknc s_Simu true true false L_Z s_dot true.
 Definition simu1 (c : cfg) (gout : bool) : calc :=
   mkcalc (g_nc c) [] (simu1_check c gout)
-    (pre_interp c ++ [OAdd WOut 1 L_SIMU (K 1) (Cst 0) 0%nat])
-    [OBody 3]
-    [OClean 2; ORename WOut no_names L_Z (K 1) 0%nat 0 [] (K (g_nbsimu c)) true]
-    (rollback_std c false).
+    (pre_interp c ++ simu_add c WOut 1 (K 1) 0%nat)
+    (if g_mode c =? 1 then
+       (if ver_bit c 2 then [OSaveLoc WOut L_SIMU] else []) ++
+       [OAddUnreg WOut L_SIMU (K (g_mnvar c)) (Cst 0) [] 5%nat false; OWrite WOut 5%nat (K (g_mnvar c)) 3;
+        OWithNc (if ver_bit c 3 then nc_simu_noloc else nc_simu) (ORename WOut no_names L_Z (K (g_mnvar c)) 5%nat 0 [] (K 1) true)] ++
+       (if ver_bit c 2 then [ORestoreLocs] else []) ++
+       [OBody 3; if ver_bit c 3 then ODeleteSlot WOut 5%nat else ODropLast WOut 3]
+     else [OBody 3])
+    ([OClean 2; ORename WOut no_names L_Z (K 1) 0%nat 0 [] (K (g_nbsimu c)) true] ++ simu_restore c)
+    (rollback_simu c false).
 
 (* ---------------------------------------------------------------- CalcSimuEden (CalcSimuEden.cpp:960-1040)
    g_mode 1: _niter > 1 (statistics), g_n = _nfluids, g_nbsimu = _niter;
@@ -298,7 +321,7 @@ Definition eden (c : cfg) (gout : bool) : calc :=
     (pre_interp c ++
      (if g_mode c =? 1 then [OAdd WOut 1 (-1) (K (g_n c)) (Cst 0) 0%nat; OAdd WOut 1 (-1) (K 1) (Cst 0) 1%nat] else []) ++
      [OAdd WOut 1 (-1) (K 1) (Cst 0) 2%nat; OAdd WOut 1 (-1) (K 1) (Cst 1) 3%nat])
-    [OBody 3]
+    [OBody 3; OWriteList WOut (g_iuids c) 3]     (* the propagation is done IN the input facies / fluid variables (g_iuids) *)
     [OClean 2;
      ORename WOut no_names L_Z (K 1) 0%nat 0 s_Stat_Fluid (K (g_nbsimu c)) true;
      ORename WOut no_names L_Z (K 1) 1%nat 0 s_Stat_Cork (K (g_nbsimu c)) true;
